@@ -778,7 +778,7 @@ impl Property for C11 {
         Meta {
             level: "exploration",
             rule: "each run is one seeded buffer (0-96 bytes, any length residue mod 4, content biased to NULs, valid/invalid UTF-8 and valid/invalid enumerant numbers) and 5-40 decoder requests / limit changes, checked step by step against a 2-field reference decoder; abstract trace = sequence of (request kind, outcome class, limit mode); non-trivial = >= 3 state-changing requests or >= 1 failed request; distinct = distinct abstract traces among non-trivial runs",
-            lanes: "1 run in 8 is an enumeration probe over every declared (typed request, number) pair and its neighbours; words(n) with n = 2^62, usize::MAX and wrap-around values 2^62*j+k; BOM content; 262 KiB strings under limits beyond 16 bits",
+            lanes: "1 run in 8 is an enumeration probe over every declared (typed request, number) pair and its neighbours; words(n) with n = 2^62, usize::MAX and wrap-around values 2^62*j+k; BOM content; 262 KiB strings under limits beyond 16 bits; buffers that start 1..3 bytes past a word boundary (1 run in 5); runs of 16..120 plain words and words(7..80)",
             triple_measure: "(limit mode x buffer-length residue, request kind, outcome class)",
             item_measure: "typed decoder requests (of 56) that succeeded at least once",
             assumptions: &[
